@@ -47,6 +47,7 @@ func goid() int64 {
 var (
 	concShared   mxj.Map
 	concSharedSq mxj.MapSeq
+	concDeep     mxj.Map // fourteen levels of maps and lists: what a writer does only "from some depth on" is done here
 	concOnce     sync.Once
 )
 
@@ -58,6 +59,8 @@ func concSetup() {
 	}
 	concShared = m
 	concSharedSq, _ = mxj.NewMapXmlSeq([]byte(doc))
+	deep := strings.Repeat(`<n i="1"><o>u</o>`, 14) + "v" + strings.Repeat(`</n>`, 14)
+	concDeep, _ = mxj.NewMapXml([]byte(deep))
 }
 
 func privDoc(g int) []byte {
@@ -98,7 +101,10 @@ func concOp(name string, g int) string {
 		}
 		sort.Strings(s)
 		cp, e := concShared.Copy()
-		return fmt.Sprint(s, tagged.CanonGo(cp), e, len(concShared.StringIndent()))
+		// the pretty-printers: whole text, with a start offset as deep as a deep document, on the deep shared Map too
+		di, de := concDeep.XmlIndent("", " ")
+		return fmt.Sprint(s, tagged.CanonGo(cp), e, concShared.StringIndent(), concShared.StringIndent(10), concShared.StringIndentNoTypeInfo(12),
+			concSharedSq.StringIndent(10), concDeep.StringIndent(), concDeep.StringIndentNoTypeInfo(), string(di), de)
 	case "decPriv":
 		m, e1 := mxj.NewMapXml(privDoc(g), true)
 		ms, e2 := mxj.NewMapXmlSeq(privDoc(g))
